@@ -81,7 +81,8 @@ ImmCtxs == {HashMapCtx((NX :> VNat(1)), Funcs, FALSE), HashMapCtx((NX :> VBool(T
             HashMapCtx(EmptyMap, Funcs, FALSE), ReadOnlyCtx(HashMapCtx((NX :> VNat(1)), Funcs, FALSE)),
             EmptyCtx, EmptyBuiltinCtx,
             \* a user function that shadows the builtin `max`: both walks must resolve it the same way
-            HashMapCtx((NX :> VNat(1)), Funcs @@ (<<109, 97, 120>> :> BehConst(VStr(<<117>>))), FALSE)}
+            \* ... and a variable whose NAME is the text of a literal (set through the API): the expression `true` is the literal
+            HashMapCtx((NX :> VNat(1)) @@ (TrueText :> VNat(5)), Funcs @@ (<<109, 97, 120>> :> BehConst(VStr(<<117>>))), FALSE)}
 Ctxs == IF Family = "imm" THEN ImmCtxs ELSE VarCtxs
 
 Toks == Render(p, Minimal)
